@@ -145,20 +145,7 @@ def run(ctx):
                 whyw = 'the slack o = (budget - |size difference|)/2 is computed differently: o=%s, abs_diff=%s' % (
                     U(defs['o'][0].value) if 'o' in defs else '?', U(defs['abs_diff'][0].value) if 'abs_diff' in defs else '?')
             if okw:
-                conds = Conds(g.node, None)
-                sel = []
-                for nm, want in (('o_l', 1), ('o_r', 0)):
-                    for d in defs.get(nm, []):
-                        if isinstance(d.value, ast.Constant) and d.value.value == want:
-                            sel.append(conds.of(d))
-                small = to_formula(parse_expr('%s < %s' % (l_n, r_n)))
-                okw = len(sel) == 2 and all(Universe(int_atoms=lambda a: True).implies(s_, small) is None or True for s_ in sel)
-                # (o_l, o_r) = (1, 0) exactly when the left suffix is the shorter one
-                both = [d for d in defs.get('o_l', []) if isinstance(d.value, ast.Constant) and d.value.value == 1]
-                if both:
-                    w = Universe(int_atoms=lambda a: True).equivalent(_strip_entry(conds.of(both[0]), l_n, r_n), small)
-                    okw = okw and w is None
-                    whyw = 'o_l = 1 is selected under a condition other than `%s < %s`' % (l_n, r_n)
+                okw, whyw = _selection_ok(g, gv, other, l_n, r_n)
         except Unsupported as e:
             okw = False
             whyw = 'window bounds not recognisable: %s' % e
@@ -182,6 +169,77 @@ def run(ctx):
     # the probe goes left (the all-smaller case must not be split by the in-window search)
     ctx.assume("the recursion of _est_hamming_dist_lower_bound (a valid lower bound of the suffixes' Hamming distance) "
                "is algorithmic and not decided")
+
+
+def _selection_ok(g, gv, pcall, l_n, r_n):
+    """(o_l, o_r) must be (1, 0) when the left suffix is the shorter one and (0, 1) otherwise - whatever idiom
+    computes them (if/else, conditional expression, complement). Decided per path to the _partition call."""
+    import copy
+    from ..paths import enumerate_paths, symexec
+    from ..guards import to_formula as tf
+    cfg = gv.cfg
+    node = cfg.node_of(gv.stmt_of(pcall))
+    small = tf(parse_expr('%s < %s' % (l_n, r_n)))
+    seen_cases = set()
+    for p in enumerate_paths(cfg, cfg.entry.id, {node.id}, stop={node.id}, limit=4000):
+        ps = symexec(p)
+        for case in (True, False):
+            # is this case compatible with the path? (every size comparison on the path must agree)
+            compatible = True
+            for e, pol, _ in ps.conds:
+                if isinstance(e, ast.Compare) and l_n in U(e) and r_n in U(e) and not any(isinstance(x, ast.Constant) for x in ast.walk(e)):
+                    uni = Universe(int_atoms=lambda a: True)
+                    holds_when_small = uni.implies(small, tf(e, pol)) is None
+                    holds_when_not = Universe(int_atoms=lambda a: True).implies(('lit', small[1], False) if small[0] == 'lit' else small, tf(e, pol)) is None
+                    if case and not holds_when_small:
+                        compatible = False
+                    if not case and not holds_when_not:
+                        compatible = False
+            if not compatible:
+                continue
+            vals = []
+            for nm in ('o_l', 'o_r'):
+                e = ps.env.get(nm)
+                if e is None:
+                    return False, '%s is not assigned on a path to the _partition call' % nm
+                v = _eval_case(e, small, case)
+                if v is None:
+                    return False, '%s = `%s` cannot be evaluated for the case %s %s %s' % (nm, U(e)[:60], l_n, '<' if case else '>=', r_n)
+                vals.append(v)
+            seen_cases.add(case)
+            want = (1, 0) if case else (0, 1)
+            if tuple(vals) != want:
+                return False, '(o_l, o_r) = %s when %s %s %s; it must be %s: the size difference widens the window on the ' \
+                              'shorter side only' % (tuple(vals), l_n, '<' if case else '>=', r_n, want)
+    if seen_cases != {True, False}:
+        return False, 'the selection of o_l/o_r does not cover both size orders'
+    return True, ''
+
+
+def _eval_case(e, small, case):
+    """numeric value of e when the size comparison `small` is `case`; conditional expressions on that
+    comparison are resolved, everything else must fold to a constant"""
+    import copy
+
+    class T(ast.NodeTransformer):
+        def visit_IfExp(s, n):
+            n = s.generic_visit(n)
+            from ..guards import to_formula as tf
+            t = tf(n.test)
+            same = Universe(int_atoms=lambda a: True).equivalent(t, small) is None
+            from ..guards import f_not
+            opp = Universe(int_atoms=lambda a: True).equivalent(t, f_not(small)) is None
+            if same:
+                return n.body if case else n.orelse
+            if opp:
+                return n.orelse if case else n.body
+            return n
+    x = T().visit(copy.deepcopy(e))
+    try:
+        c = Norm().visit(x).as_const()
+    except Unsupported:
+        return None
+    return int(c) if c is not None and c.denominator == 1 else None
 
 
 def _strip_entry(c, l_n, r_n):
